@@ -10,7 +10,7 @@ LEVEL = 'exploration'
 RULE = ('literals at day/hour/minute/second precision x separators - and : x quoted/unquoted x 1- and 2-digit fields, at '
         'ordinary days, month ends, year end, 29 Feb and the two DST-change days; for each literal the mtime grid '
         '{a-1,a,a+1,mid,b-1,b,b+1} (+- one day) x operators = != < > <= >= (all spellings) and ===/!== at full precision x '
-        'TZ in {UTC, Europe/Berlin, Asia/Kolkata}; relative literals today, yesterday, -7..+1 under a controlled clock at '
+        'TZ in {UTC, Europe/Berlin, Asia/Kolkata} (thorough: + New_York, Lord_Howe (30-minute DST), Chatham (+12:45), Kathmandu (+5:45), St_Johns (-3:30) and every month end / month start of 2020 and 2021); relative literals today, yesterday, -7..+1 under a controlled clock at '
         'midnight, noon, 23:59:59, month end, year end and DST days; the modified column text; non-trivial = the condition '
         'accepts some but not all grid points')
 ASSUMPTIONS = ['comparisons are between local wall-clock seconds (the statement\'s "local-time seconds")',
@@ -63,14 +63,29 @@ def local_naive(epoch, zone):
     return dt.datetime.fromtimestamp(epoch, ZoneInfo(zone)).replace(tzinfo=None)
 
 
+ZONES_T = ZONES + ['America/New_York', 'Australia/Lord_Howe', 'Pacific/Chatham', 'Asia/Kathmandu', 'America/St_Johns']
+
+
+def month_ends():
+    import calendar
+    out = []
+    for y in (2020, 2021):
+        for mth in range(1, 13):
+            out.append((y, mth, calendar.monthrange(y, mth)[1], 23, 59, 59))
+            out.append((y, mth, 1, 0, 0, 0))
+    return out
+
+
 def groups(tier, seed):
-    for zone in ZONES:
-        for base in BASES:
+    zones = ZONES if tier == 'quick' else ZONES_T
+    bases = BASES if tier == 'quick' else BASES + month_ends() + [(2021, 3, 14, 12, 0, 0), (2021, 11, 7, 12, 0, 0), (2021, 4, 4, 12, 0, 0), (2021, 10, 3, 12, 0, 0)]
+    for zone in zones:
+        for base in bases:
             yield {'kind': 'abs', 'zone': zone, 'base': list(base), 'only': None}
     nows = [(2021, 6, 15, 0, 0, 0), (2021, 6, 15, 12, 0, 0), (2021, 6, 15, 23, 59, 59), (2021, 5, 31, 23, 59, 59),
             (2020, 12, 31, 23, 0, 0), (2021, 1, 1, 0, 0, 1), (2021, 3, 28, 12, 0, 0), (2021, 3, 29, 0, 30, 0),
             (2021, 10, 31, 23, 0, 0), (2021, 11, 1, 0, 10, 0), (2020, 3, 1, 6, 0, 0), (2021, 3, 1, 6, 0, 0)]
-    for zone in ZONES:
+    for zone in zones:
         for now in nows:
             yield {'kind': 'rel', 'zone': zone, 'now': list(now), 'only': None}
     yield {'kind': 'fmt'}
